@@ -60,6 +60,30 @@ func GetRelationLineNumber(relation string, lines []string) int {
 	})
 }
 
+// GetExtendedRelationLineNumber returns the line on which the relation is defined inside the
+// "extend type typeName" block, so that a relation of the same name in another type of the file is not
+// mistaken for it. It falls back to the first definition of the relation in the file.
+func GetExtendedRelationLineNumber(typeName string, relation string, lines []string) int {
+	start := GetExtendedTypeLineNumber(typeName, lines)
+	if start == -1 {
+		return GetRelationLineNumber(relation, lines)
+	}
+
+	for index := start + 1; index < len(lines); index++ {
+		if name, ok := declaredName(lines[index], "define"); ok && name == relation {
+			return index
+		}
+
+		// the next type, extension or condition ends the block
+		if fields := strings.Fields(lines[index]); len(fields) > 0 &&
+			(fields[0] == "type" || fields[0] == "extend" || fields[0] == "condition") {
+			break
+		}
+	}
+
+	return GetRelationLineNumber(relation, lines)
+}
+
 // declarationOffset returns the position just behind the keyword(s) that open a declaration line
 // ("type", "extend type", "define", "condition"), so that the declared name can be searched for behind them.
 func declarationOffset(line string) int {
